@@ -6,6 +6,7 @@ cd "$(dirname "$0")"
 export CARGO_NET_OFFLINE=true
 mkdir -p build
 python3 tools/gen_consts.py
+python3 tools/gen_guards.py
 ( cd coq && coq_makefile -f _CoqProject -o Makefile >/dev/null && timeout 3000 make -j16 )
 mkdir -p build/extract
 ( cd build/extract && timeout 1200 coqc -Q ../../coq RP ../../coq/Extract.v && cp ../../runner/*.ml . \
